@@ -17,4 +17,15 @@ func init() {
 		defer env.Close()
 		return RunSeq(env, a[0], a[1], a[2])
 	}
+	Modes["abmf"] = func(a []string) error {
+		if len(a) != 3 {
+			return fmt.Errorf("abmf <prefix> <behaviours.json> <out.ndjson>")
+		}
+		env, err := StartEnv(EnvOpts{NoRating: true})
+		if err != nil {
+			return err
+		}
+		defer env.Close()
+		return RunAbmf(env, a[0], a[1], a[2])
+	}
 }
